@@ -28,7 +28,7 @@ from common import zlit, blit, llit, olit, VERIF
 
 ID = 'C17'
 TECHNIQUE = ('Coq proof over an executable model of the upstream request construction + correspondence of the model with '
-             'WMSSource/TiledSource built by the real configuration loader (recording HTTP client)')
+             'WMSSource/TiledSource built by the real configuration loader (recording HTTP client); WMSSource._is_compatible is regenerated from the source by the ast translator (Gen_compat.v) and proved equal to the model')
 LEVEL_TEXT = ('Theorems for every WMS source configuration (supported_srs, preferred_src_proj, supported_formats, bbox coverage, '
               'resolution range, forward_req_params, request template) and every query (bbox, size, SRS, format, dimensions), '
               'for an arbitrary PROJ function T: SRS and format of the request come from the configured lists, the bbox lies in the '
